@@ -3,7 +3,7 @@
    public editing call.  A molecule is
      [nodes : Seq([key, resid, cg, tag]),      insertion-ordered nodes with the attributes the property names
       edges : SUBSET (Key \X Key),             undirected, stored as <<a, b>> with a < b
-      inter : Seq([atoms, ver, tag]),          one interaction type is enough for the editing semantics
+      inter : [Types -> Seq([atoms, ver, tag])], per-type interaction lists
       maxnode : Int | NULL]                    the `max_node` cache of merge_molecule
    CacheModel = "asShipped" reproduces the cache exactly as the pinned commit has it (set by merge, bumped
    by add_node whatever the key, unknown to bulk insertion and to removal, 0 being falsy);
@@ -12,6 +12,10 @@
 EXTENDS Integers, Sequences, FiniteSets, TLC
 
 CONSTANTS Id,          \* heap cells
+          Types,       \* interaction types
+          InitMols,    \* set of molecules a heap cell may hold initially
+          AtomSeqs,    \* atom tuples that calls may name for interactions
+          NodeSets,    \* node sets that bulk calls (add_nodes_from, remove_nodes_from, subgraph) may name
           Key,         \* node keys that calls may name explicitly
           AttrChoice,  \* sequence of [resid, cg, tag] records a caller may give to a new atom
           MaxNodes,    \* bound on nodes per molecule
@@ -23,8 +27,8 @@ CONSTANTS Id,          \* heap cells
 
 NULL == -1
 
-VARIABLES mols, err
-vars == <<mols, err>>
+VARIABLES mols, err, steps
+vars == <<mols, err, steps>>
 
 -----------------------------------------------------------------------------
 (* pure helpers *)
@@ -38,7 +42,9 @@ Truthy(x)    == x # NULL /\ x # 0
 RangeOf(s)   == {s[i] : i \in DOMAIN s}
 FilterSeq(s, Test(_)) == SelectSeq(s, Test)
 
-EmptyMol == [nodes |-> <<>>, edges |-> {}, inter |-> <<>>, maxnode |-> NULL]
+EmptyMol == [nodes |-> <<>>, edges |-> {}, inter |-> [t \in Types |-> <<>>], maxnode |-> NULL]
+NInter(M) == LET RECURSIVE S(_) S(T) == IF T = {} THEN 0 ELSE LET t == CHOOSE x \in T : TRUE IN Len(M.inter[t]) + S(T \ {t})
+             IN S(Types)
 
 Bump(mn) == IF CacheModel = "asShipped" THEN (IF Truthy(mn) THEN mn + 1 ELSE 0) ELSE NULL
 
@@ -60,7 +66,8 @@ AddNodesOneByOne(M, ns) ==
 DropNodes(M, ks, purge) ==
   [M EXCEPT !.nodes = SelectSeq(M.nodes, LAMBDA n : n.key \notin ks),
             !.edges = {e \in M.edges : e[1] \notin ks /\ e[2] \notin ks},
-            !.inter = IF purge THEN SelectSeq(M.inter, LAMBDA x : RangeOf(x.atoms) \cap ks = {}) ELSE M.inter]
+            !.inter = IF purge THEN [t \in Types |-> SelectSeq(M.inter[t], LAMBDA x : RangeOf(x.atoms) \cap ks = {})]
+                      ELSE M.inter]
 
 MkNode(k, ai) == [key |-> k, resid |-> AttrChoice[ai].resid, cg |-> AttrChoice[ai].cg, tag |-> AttrChoice[ai].tag]
 
@@ -87,115 +94,128 @@ Glue(M, N, base) ==
       ren(k) == base + PosOf(N, k)
       M0   == [M EXCEPT !.maxnode = IF CacheModel = "asShipped" THEN base ELSE NULL]
       M1   == AddNodesOneByOne(M0, new)
-  IN [M1 EXCEPT !.inter = M.inter \o [j \in DOMAIN N.inter |->
-                                        [N.inter[j] EXCEPT !.atoms = [p \in DOMAIN N.inter[j].atoms |-> ren(N.inter[j].atoms[p])]]],
+  IN [M1 EXCEPT !.inter = [t \in Types |-> M.inter[t] \o [j \in DOMAIN N.inter[t] |->
+                                        [N.inter[t][j] EXCEPT !.atoms = [p \in DOMAIN N.inter[t][j].atoms |-> ren(N.inter[t][j].atoms[p])]]]],
                 !.edges = M.edges \cup {Norm(ren(e[1]), ren(e[2])) : e \in N.edges}]
 
 -----------------------------------------------------------------------------
+(* effects of the calls as pure operators: [mol |-> resulting molecule, err |-> outcome] *)
+R(M, e) == [mol |-> M, err |-> e]
+
+EffAddNode(M, n) == R([PutNode(M, n) EXCEPT !.maxnode = Bump(M.maxnode)], "none")
+
+EffAddNodesFrom(M, ns) == R(PutNodes(M, ns), "none")      \* networkx bulk insertion: by-passes Molecule.add_node
+
+EffSetResid(M, k, r) == R([M EXCEPT !.nodes[PosOf(M, k)].resid = r], "none")   \* mol.nodes[k]['resid'] = r
+
+EffRemoveNode(M, k) == IF k \in KeysOf(M) THEN R(DropNodes(M, {k}, TRUE), "none") ELSE R(M, "NetworkXError")
+
+\* oneShot: the caller passed a generator
+EffRemoveNodesFrom(M, ks, oneShot) == R(DropNodes(M, ks, ~oneShot \/ OneShotPurges), "none")
+
+EffAddEdge(M, a, b) == R([M EXCEPT !.edges = @ \cup {Norm(a, b)}], "none")
+
+EffAddInter(M, ty, at, v, t) ==
+  IF RangeOf(at) \subseteq KeysOf(M)
+  THEN R([M EXCEPT !.inter[ty] = Append(@, [atoms |-> at, ver |-> v, tag |-> t])], "none")
+  ELSE R(M, "KeyError")
+
+Hits(M, ty, at, v) == {j \in DOMAIN M.inter[ty] : M.inter[ty][j].atoms = at /\ M.inter[ty][j].ver = v}
+FirstOf(S) == CHOOSE x \in S : \A y \in S : x <= y
+
+EffAddOrReplace(M, ty, at, v, t) ==
+  IF Hits(M, ty, at, v) # {}
+  THEN R([M EXCEPT !.inter[ty][FirstOf(Hits(M, ty, at, v))] = [atoms |-> at, ver |-> v, tag |-> t]], "none")
+  ELSE EffAddInter(M, ty, at, v, t)
+
+EffRemoveInter(M, ty, at, v) ==
+  IF Hits(M, ty, at, v) # {}
+  THEN LET j == FirstOf(Hits(M, ty, at, v))
+           L == M.inter[ty]
+       IN R([M EXCEPT !.inter[ty] = [i \in 1..(Len(L) - 1) |-> IF i < j THEN L[i] ELSE L[i + 1]]], "none")
+  ELSE R(M, "KeyError")
+
+\* subgraph(nodes): the new molecule lists its atoms in the order of the ARGUMENT (kseq), copies bonds and the
+\* interactions that lie entirely inside; copy() is subgraph(all nodes in their own order)
+SubMol(M, kseq) ==
+  LET ks == RangeOf(kseq) IN
+  [nodes |-> [i \in DOMAIN kseq |-> NodeOf(M, kseq[i])],
+   edges |-> {e \in M.edges : e[1] \in ks /\ e[2] \in ks},
+   inter |-> [t \in Types |-> SelectSeq(M.inter[t], LAMBDA x : RangeOf(x.atoms) \subseteq ks)],
+   maxnode |-> NULL]
+
+EffMerge(M, N) ==
+  LET base == MergeBase(M)
+  IN IF M.nodes # <<>> /\ base \notin KeysOf(M)
+     THEN R(M, "KeyError")                                 \* reachable only "asShipped"
+     ELSE R(Glue(M, N, base), "none")
+
+-----------------------------------------------------------------------------
 (* actions *)
-Ok(m, M2, call) == mols' = [mols EXCEPT ![m] = M2] /\ err' = "none"
-Fail(e, call)   == UNCHANGED mols /\ err' = e
+Apply(m, r) == /\ steps < MaxDepth
+               /\ mols' = [mols EXCEPT ![m] = r.mol]
+               /\ err' = r.err
+               /\ steps' = steps + 1
 
 AddNode(m, k, ai) ==
   /\ Len(mols[m].nodes) < MaxNodes \/ k \in KeysOf(mols[m])
-  /\ Ok(m, [PutNode(mols[m], MkNode(k, ai)) EXCEPT !.maxnode = Bump(mols[m].maxnode)], [op |-> "AddNode", m |-> m])
+  /\ Apply(m, EffAddNode(mols[m], MkNode(k, ai)))
 
-AddNodesFrom(m, ks, ai) ==          \* networkx bulk insertion: by-passes Molecule.add_node
-  /\ ks # {}
+AddNodesFrom(m, ks, ai) ==
   /\ Cardinality(KeysOf(mols[m]) \cup ks) <= MaxNodes
-  /\ Ok(m, PutNodes(mols[m], [i \in 1..Cardinality(ks) |-> MkNode(SortedSeq(ks)[i], ai)]), [op |-> "AddNodesFrom", m |-> m])
+  /\ Apply(m, EffAddNodesFrom(mols[m], [i \in 1..Cardinality(ks) |-> MkNode(SortedSeq(ks)[i], ai)]))
 
-SetResid(m, k, r) ==               \* in-place attribute edit: mol.nodes[k]['resid'] = r
-  /\ k \in KeysOf(mols[m])
-  /\ Ok(m, [mols[m] EXCEPT !.nodes[PosOf(mols[m], k)].resid = r], [op |-> "SetResid", m |-> m])
+SetResid(m, k, r) == k \in KeysOf(mols[m]) /\ Apply(m, EffSetResid(mols[m], k, r))
 
-RemoveNode(m, k) ==
-  IF k \in KeysOf(mols[m])
-  THEN Ok(m, DropNodes(mols[m], {k}, TRUE), [op |-> "RemoveNode", m |-> m])
-  ELSE Fail("NetworkXError", [op |-> "RemoveNode", m |-> m])
+RemoveNode(m, k) == m \in Id /\ Apply(m, EffRemoveNode(mols[m], k))
 
-RemoveNodesFrom(m, ks, oneShot) ==  \* oneShot: the caller passed a generator
-  /\ ks # {}
-  /\ Ok(m, DropNodes(mols[m], ks, ~oneShot \/ OneShotPurges), [op |-> "RemoveNodesFrom", m |-> m])
+RemoveNodesFrom(m, ks, oneShot) == ks # {} /\ Apply(m, EffRemoveNodesFrom(mols[m], ks, oneShot))
 
-AddEdge(m, a, b) ==
-  /\ a \in KeysOf(mols[m]) /\ b \in KeysOf(mols[m]) /\ a < b
-  /\ Ok(m, [mols[m] EXCEPT !.edges = @ \cup {<<a, b>>}], [op |-> "AddEdge", m |-> m])
+AddEdge(m, a, b) == {a, b} \subseteq KeysOf(mols[m]) /\ Apply(m, EffAddEdge(mols[m], a, b))
 
-AddInter(m, a, b, v, t) ==
-  /\ Len(mols[m].inter) < MaxInter
-  /\ IF {a, b} \subseteq KeysOf(mols[m])
-     THEN Ok(m, [mols[m] EXCEPT !.inter = Append(@, [atoms |-> <<a, b>>, ver |-> v, tag |-> t])], [op |-> "AddInter", m |-> m])
-     ELSE Fail("KeyError", [op |-> "AddInter", m |-> m])
+AddInter(m, ty, at, v, t) == NInter(mols[m]) < MaxInter /\ Apply(m, EffAddInter(mols[m], ty, at, v, t))
 
-AddOrReplace(m, a, b, v, t) ==
-  LET M == mols[m]
-      hits == {j \in DOMAIN M.inter : M.inter[j].atoms = <<a, b>> /\ M.inter[j].ver = v}
-  IN IF hits # {}
-     THEN LET j == CHOOSE x \in hits : \A y \in hits : x <= y
-          IN Ok(m, [M EXCEPT !.inter[j] = [atoms |-> <<a, b>>, ver |-> v, tag |-> t]], [op |-> "AddOrReplace", m |-> m])
-     ELSE /\ Len(M.inter) < MaxInter
-          /\ IF {a, b} \subseteq KeysOf(M)
-             THEN Ok(m, [M EXCEPT !.inter = Append(@, [atoms |-> <<a, b>>, ver |-> v, tag |-> t])], [op |-> "AddOrReplace", m |-> m])
-             ELSE Fail("KeyError", [op |-> "AddOrReplace", m |-> m])
+AddOrReplace(m, ty, at, v, t) ==
+  /\ NInter(mols[m]) < MaxInter \/ Hits(mols[m], ty, at, v) # {}
+  /\ Apply(m, EffAddOrReplace(mols[m], ty, at, v, t))
 
-RemoveInter(m, a, b, v) ==
-  LET M == mols[m]
-      hits == {j \in DOMAIN M.inter : M.inter[j].atoms = <<a, b>> /\ M.inter[j].ver = v}
-  IN IF hits # {}
-     THEN LET j == CHOOSE x \in hits : \A y \in hits : x <= y
-          IN Ok(m, [M EXCEPT !.inter = [i \in 1..(Len(M.inter) - 1) |-> IF i < j THEN M.inter[i] ELSE M.inter[i + 1]]],
-                [op |-> "RemoveInter", m |-> m])
-     ELSE Fail("KeyError", [op |-> "RemoveInter", m |-> m])
+RemoveInter(m, ty, at, v) == ty \in Types /\ Apply(m, EffRemoveInter(mols[m], ty, at, v))
 
-SubMol(M, ks) ==
-  [nodes |-> SelectSeq(M.nodes, LAMBDA n : n.key \in ks),
-   edges |-> {e \in M.edges : e[1] \in ks /\ e[2] \in ks},
-   inter |-> SelectSeq(M.inter, LAMBDA x : RangeOf(x.atoms) \subseteq ks),
-   maxnode |-> NULL]
+KeySeq(M) == [i \in Idx(M) |-> M.nodes[i].key]
+Copy(src, dst) == src # dst /\ Apply(dst, R(SubMol(mols[src], KeySeq(mols[src])), "none"))
 
-Copy(src, dst) ==
-  /\ src # dst
-  /\ Ok(dst, SubMol(mols[src], KeysOf(mols[src])), [op |-> "Copy", m |-> dst])
-
-Subgraph(src, ks, dst) ==
-  /\ src # dst /\ ks \subseteq KeysOf(mols[src])
-  /\ Ok(dst, SubMol(mols[src], ks), [op |-> "Subgraph", m |-> dst])
+Subgraph(src, ks, dst) == src # dst /\ ks \subseteq KeysOf(mols[src]) /\ Apply(dst, R(SubMol(mols[src], SortedSeq(ks)), "none"))
 
 Merge(m, n) ==
   /\ m # n
   /\ Len(mols[m].nodes) + Len(mols[n].nodes) <= MaxNodes
-  /\ LET M == mols[m]  N == mols[n]  base == MergeBase(M)
-     IN IF M.nodes # <<>> /\ base \notin KeysOf(M)
-        THEN Fail("KeyError", [op |-> "Merge", m |-> m])           \* reachable only "asShipped"
-        ELSE Ok(m, Glue(M, N, base), [op |-> "Merge", m |-> m, n |-> n])
+  /\ Apply(m, EffMerge(mols[m], mols[n]))
 
-Pairs  == {p \in Key \X Key : p[1] # p[2]}
-KSets  == {s \in SUBSET Key : s # {} /\ Cardinality(s) <= 2}
+Pairs  == {p \in Key \X Key : p[1] < p[2]}
 Vers   == {0, 1}
 ITags  == {"s", "t"}
 
 Next ==
   \/ \E m \in Id, k \in Key, ai \in DOMAIN AttrChoice : AddNode(m, k, ai)
-  \/ \E m \in Id, ks \in KSets, ai \in DOMAIN AttrChoice : AddNodesFrom(m, ks, ai)
+  \/ \E m \in Id, ks \in NodeSets, ai \in DOMAIN AttrChoice : AddNodesFrom(m, ks, ai)
   \/ \E m \in Id, k \in Key, r \in {MaxResid} : SetResid(m, k, r)
   \/ \E m \in Id, k \in Key : RemoveNode(m, k)
-  \/ \E m \in Id, ks \in KSets, o \in BOOLEAN : RemoveNodesFrom(m, ks, o)
+  \/ \E m \in Id, ks \in NodeSets, o \in BOOLEAN : RemoveNodesFrom(m, ks, o)
   \/ \E m \in Id, p \in Pairs : AddEdge(m, p[1], p[2])
-  \/ \E m \in Id, p \in Pairs, v \in Vers : AddInter(m, p[1], p[2], v, "s")
-  \/ \E m \in Id, p \in Pairs, v \in Vers : AddOrReplace(m, p[1], p[2], v, "t")
-  \/ \E m \in Id, p \in Pairs, v \in Vers : RemoveInter(m, p[1], p[2], v)
+  \/ \E m \in Id, ty \in Types, at \in AtomSeqs : AddInter(m, ty, at, 0, "s")
+  \/ \E m \in Id, ty \in Types, at \in AtomSeqs, v \in Vers : AddOrReplace(m, ty, at, v, "t")
+  \/ \E m \in Id, ty \in Types, at \in AtomSeqs, v \in Vers : RemoveInter(m, ty, at, v)
   \/ \E s, d \in Id : Copy(s, d)
-  \/ \E s, d \in Id, ks \in SUBSET Key : Subgraph(s, ks, d)
+  \/ \E s, d \in Id, ks \in NodeSets : Subgraph(s, ks, d)
   \/ \E m, n \in Id : Merge(m, n)
 
-Init == /\ mols = [m \in Id |-> EmptyMol]
+Init == /\ mols \in [Id -> InitMols]
         /\ err = "none"
+        /\ steps = 0
 
 Spec == Init /\ [][Next]_vars
 
 Bounded ==
-  /\ TLCGet("level") <= MaxDepth
   /\ \A m \in Id : \A i \in Idx(mols[m]) : mols[m].nodes[i].resid <= MaxResid /\ mols[m].nodes[i].cg <= MaxResid
 
 -----------------------------------------------------------------------------
@@ -203,7 +223,7 @@ Bounded ==
 NoDangling ==
   \A m \in Id :
      /\ \A e \in mols[m].edges : e[1] \in KeysOf(mols[m]) /\ e[2] \in KeysOf(mols[m])
-     /\ \A j \in DOMAIN mols[m].inter : RangeOf(mols[m].inter[j].atoms) \subseteq KeysOf(mols[m])
+     /\ \A t \in Types : \A j \in DOMAIN mols[m].inter[t] : RangeOf(mols[m].inter[t][j].atoms) \subseteq KeysOf(mols[m])
 
 UniqueKeys == \A m \in Id : \A i, j \in Idx(mols[m]) : i # j => mols[m].nodes[i].key # mols[m].nodes[j].key
 
@@ -222,11 +242,12 @@ MergeConserves ==
                      /\ (M.nodes = <<>> => dr = 0 /\ dc = 0)
                      /\ \A i \in Idx(N) : LET x == M2.nodes[Len(M.nodes) + i] IN
                            x.resid = N.nodes[i].resid + dr /\ x.cg = N.nodes[i].cg + dc /\ x.tag = N.nodes[i].tag
-               /\ Len(M2.inter) = Len(M.inter) + Len(N.inter)
-               /\ \A j \in DOMAIN M.inter : M2.inter[j] = M.inter[j]
-               /\ \A j \in DOMAIN N.inter : LET y == M2.inter[Len(M.inter) + j] IN
-                     /\ y.ver = N.inter[j].ver /\ y.tag = N.inter[j].tag
-                     /\ \A p \in DOMAIN y.atoms : y.atoms[p] = M2.nodes[Len(M.nodes) + PosOf(N, N.inter[j].atoms[p])].key
+               /\ \A t \in Types :
+                     /\ Len(M2.inter[t]) = Len(M.inter[t]) + Len(N.inter[t])
+                     /\ \A j \in DOMAIN M.inter[t] : M2.inter[t][j] = M.inter[t][j]
+                     /\ \A j \in DOMAIN N.inter[t] : LET y == M2.inter[t][Len(M.inter[t]) + j] IN
+                           /\ y.ver = N.inter[t][j].ver /\ y.tag = N.inter[t][j].tag
+                           /\ \A p \in DOMAIN y.atoms : y.atoms[p] = M2.nodes[Len(M.nodes) + PosOf(N, N.inter[t][j].atoms[p])].key
                /\ M.edges \subseteq M2.edges
                /\ Cardinality(M2.edges) = Cardinality(M.edges) + Cardinality(N.edges)
   ]_vars
@@ -235,7 +256,7 @@ MergeConserves ==
 FrameStep ==
   /\ \A m \in Id : mols'[m] # mols[m] => \A n \in Id \ {m} : mols'[n] = mols[n]
   /\ \A s, d \in Id : Copy(s, d) => mols'[s] = mols[s]
-  /\ \A s, d \in Id, ks \in SUBSET Key : Subgraph(s, ks, d) => mols'[s] = mols[s]
+  /\ \A s, d \in Id, ks \in NodeSets : Subgraph(s, ks, d) => mols'[s] = mols[s]
   /\ \A m, n \in Id : Merge(m, n) => mols'[n] = mols[n]
 Frame == [][FrameStep]_vars
 =============================================================================
